@@ -2,7 +2,7 @@
 import ast
 
 from ..model import AnchorError, call_name, const_str, dotted, src
-from ..rules import FuncView, suffix_match, defect_scope
+from ..rules import FuncView, suffix_match, defect_scope, path_condition, formula_equiv, peval, simplify
 from . import _framing
 
 EXPLANATION = (
@@ -54,17 +54,20 @@ def check(ctx):
     t = V.tests(lambda t: src(t) == "self.insels.fetch(tag)")
     rets = [n for n in V.cfg.nodes if n.kind == "return"]
     ctx.check(bool(t) and any(V.dominated_by_edge([r], t[0], "T") for r in rets), "T9-compare", f, "switch: first selected input wins (return inside the loop)", "")
-    f, V = A["ArbiterPriority"]
-    t = V.tests(lambda t: isinstance(t, ast.BoolOp) and isinstance(t.op, ast.And) and
-                {src(v).replace("(", "").replace(")", "") for v in t.values} == {"self.insels.fetchtag", "truth > self.default.truth", "imp > impmax"})
-    st = [n for n in V.cfg.nodes if isinstance(n.ast, ast.Assign) and dotted(n.ast.targets[0]) in ("inputmax", "impmax", "truthmax") and
-          not isinstance(n.ast.value, ast.Constant)]
-    ctx.check(bool(t) and len(st) == 3 and all(V.dominated_by_edge([n], t[0], "T") for n in st), "T9-compare", f,
-              "priority: selected and truth > default and imp > impmax => new maximum", "the first most important sufficient input wins")
-    f, V = A["ArbiterTrusted"]
-    t1 = V.tests(lambda t: src(t).replace("(", "").replace(")", "") == "truth > truthmax")
-    t2 = V.tests(lambda t: src(t).replace("(", "").replace(")", "") == "truth == truthmax and imp > impmax")
-    ctx.check(bool(t1) and bool(t2), "T9-compare", f, "trusted: truth > truthmax, tie broken by imp > impmax", "highest truth wins, ties by importance")
+    # selection condition of the priority and trusted arbiters as a propositional function of the tests on the way
+    SEL, TR, IMP = "self.insels.fetch(tag)", "self.FixTruth(input.truth)", "self.inimps.fetch(tag)"
+    EXPECT = {"ArbiterPriority": "%s and %s > self.default.truth and %s > impmax" % (SEL, TR, IMP),
+              "ArbiterTrusted": "%s and %s > self.default.truth and (%s > truthmax or (%s == truthmax and %s > impmax))" % (SEL, TR, TR, TR, IMP)}
+    WHAT = {"ArbiterPriority": "priority: selected and truth > default and imp > impmax => new maximum",
+            "ArbiterTrusted": "trusted: selected and truth > default and (truth > truthmax, or equal truth and imp > impmax) => new maximum"}
+    for cn, names in (("ArbiterPriority", ("inputmax", "impmax")), ("ArbiterTrusted", ("inputmax", "impmax", "truthmax"))):
+        f, V = A[cn]
+        for nm in names:
+            st = [n for n in V.stores(nm) if isinstance(n.ast, ast.Assign) and not isinstance(n.ast.value, ast.Constant)]
+            V.need(st, "assignment of the running %s in %s.update" % (nm, cn))
+            pc = ("or", [path_condition(V, n) for n in st])
+            ctx.check(formula_equiv(pc, EXPECT[cn]), "T9-compare", st[0].ast, "%s (%s)" % (WHAT[cn], nm),
+                      "the running maximum is replaced under a different condition than the documented one: the wrong input wins")
     f, V = A["ArbiterWeighted"]
     cfg = V.cfg
     hdr = [n for n in cfg.nodes if n.kind == "for"]
@@ -95,9 +98,14 @@ def check(ctx):
     hs = {dotted(h.type) for h in ast.walk(f) if isinstance(h, ast.ExceptHandler) and h.type is not None}
     ctx.check({"TypeError", "ZeroDivisionError"} <= hs, "T2-assign", f, "weighted: TypeError and ZeroDivisionError fall back to the default", "never raising")
     ft = ctx.cls("arbiting", "Arbiter").own_method("FixTruth")
-    t = src(ft).replace(" ", "")
-    ctx.check("iftruthisNoneortruthisTrue:" in t and "truth=1.0" in t and "eliftruthisFalse:" in t and "truth=0.0" in t and
-              "float(min(1.0,max(0.0,truth)))" in t, "T9-fixtruth", ft, "FixTruth: None/True -> 1.0, False -> 0.0, else clamp to [0, 1]", "")
+    FT = FuncView(ctx, ft)
+    outs = {}
+    for label, env in (("None", {"truth": None}), ("True", {"truth": True}), ("False", {"truth": False}), ("other", {})):
+        outs[label] = {src(simplify(e)).replace(" ", "") if e is not None else "None" for k, e, *_ in peval(FT, env) if k == "return"}
+    clamp = {"float(min(1.0,max(0.0,truth)))", "float(max(0.0,min(1.0,truth)))"}
+    ok = outs["None"] == {"1.0"} and outs["True"] == {"1.0"} and outs["False"] == {"0.0"} and \
+        bool(outs["other"] & clamp) and outs["other"] <= clamp | {"1.0", "0.0"}
+    ctx.check(ok, "T9-fixtruth", ft, "FixTruth: None/True -> 1.0, False -> 0.0, else clamp to [0, 1] (%s)" % {k: sorted(v) for k, v in outs.items()}, "")
     defect_scope(ctx, "D-scope", [A[k][0] for k in A] + [ft, ctx.cls("arbiting", "Arbiter").own_method("GoodTruth")], max_depth=1, floor=6,
                  label="scope: arbiter update methods")
     # sufficiency: an input can become the selection only if it is selected AND its truth is strictly above the default truth
